@@ -767,7 +767,7 @@ class SourceHandler:
             self._params.positive_ack_params.ack_timer.reset()
             self._params.positive_ack_params.ack_counter += 1
             self._prepare_eof_pdu(
-                self._checksum_calculation(self._params.fp.file_size),
+                self._checksum_calculation(self._params.fp.progress),
             )
 
     def _handle_wait_for_finish(self, packet_holder: PduHolder) -> None:
